@@ -460,6 +460,51 @@ def r5_marker_search_on_base_name_only(repo=None):
     return r
 
 
+def r6_reported_names_are_the_names_used(repo=None):
+    """'The reported last file and directory written are those containing the most recently written sample': the library creates,
+    renames and removes the file under <directory>/<sub_directory>/<basename> (C02.R1) and reports from the same three fields.
+    The text handed back by digital_rf_get_last_dir_written is <directory>/<sub_directory>(/), the text of
+    digital_rf_get_last_file_written that directory plus the base name without its tmp. marker - composed in that order from
+    those fields and nothing else (string provenance of the returned buffer)."""
+    r = Rule("C19.R6", "the reported last directory / file are composed from directory, sub_directory and the published base name")
+    tu = cfront.lib(repo)
+    want = {"digital_rf_get_last_dir_written": [("<directory>", "/", "<sub_directory>"), ("<directory>", "/", "<sub_directory>", "/")],
+            "digital_rf_get_last_file_written": [("<directory>", "/", "<sub_directory>", "/", "strstr(<basename>,'rf')")]}
+    for fname, shapes in want.items():
+        fn = tu.fn(fname)
+        locals_ = {d.name for d in fn.find("VarDecl") if "[" in (d.type or "")}
+        # the text returned: the last copy of a local buffer into the malloc'ed result (or the buffer handed to a duplicating helper)
+        outs = [c for c in fn.calls() if c.callee in ("strcpy", "strdup", "memcpy", "strncpy") and any(a.path() in locals_ for a in c.args[-2:] if a is not None)
+                and not (c.args and c.args[0].path() in locals_)]
+        outs += [c for c in fn.calls() if c.callee in tu.functions and any(a.path() in locals_ for a in c.args)
+                 and fn.find("ReturnStmt") and any(c.begin >= rt.begin and c.end <= rt.end for rt in fn.find("ReturnStmt"))]
+        if not outs:
+            raise AnalysisError("%s: the statement that copies the composed path into the result was not recognised" % fname)
+        last = sorted(outs, key=lambda c: c.begin)[-1]
+        buf = [a.path() for a in last.args if a.path() in locals_][-1]
+        pieces, seen = clib.build_string(fn, buf, before=last)
+        got = clib.shape(pieces)
+        # joined literals: "/" "x" and "/x" are the same text
+        def canon(t):
+            out = []
+            for x in t:
+                if out and not out[-1].startswith(("<", "$", "?", "strstr(")) and not x.startswith(("<", "$", "?", "strstr(")):
+                    out[-1] += x
+                else:
+                    out.append(x)
+            return tuple(out)
+        site = "%s:%s %s" % (C_LIB, last.line, fname)
+        if any(x.startswith("?") for x in got):
+            raise AnalysisError("%s: composition of the reported path not followed (%s)" % (fname, got))
+        if canon(got) in [canon(s_) for s_ in shapes]:
+            r.ok(site, "returns %s" % "".join(got))
+        else:
+            r.violation(C_LIB, fname, "returns %s" % " + ".join(got), "the reported path is not composed as %s: it does not name the %s the writer "
+                        "uses for the most recently written sample" % ("".join(shapes[0]), "directory" if "dir" in fname else "file"), line=last.line)
+    r.guard(2)
+    return r
+
+
 def rules(repo=None):
     def r1():
         x = c05.r2_validate_before_effect_py(repo)
@@ -468,7 +513,7 @@ def rules(repo=None):
             f.rule = "C19.R1"
         return x
     return [r1, lambda: r2_affine_invariant(repo), lambda: r3_extension_returns_cursor(repo),
-            lambda: r4_last_written_survive_close(repo), lambda: r5_marker_search_on_base_name_only(repo)]
+            lambda: r4_last_written_survive_close(repo), lambda: r5_marker_search_on_base_name_only(repo), lambda: r6_reported_names_are_the_names_used(repo)]
 
 
 EXPLANATION = (
@@ -483,7 +528,9 @@ EXPLANATION = (
     '(strstr and relatives): the base name, or a local buffer none of whose writers reads the directory / sub_directory '
     "fields (followed through locals and to the callers' arguments) - a search for the temporary marker over the whole "
     "path finds it in the user's directory for some directory names, and the reported last file is then a name that never"
-    ' exists. Does NOT decide the value of the C cursor.')
+    ' exists. R6: string provenance of the text returned by digital_rf_get_last_dir_written / '
+    'digital_rf_get_last_file_written: <directory>/<sub_directory>(/) and that plus the base name without tmp. Does NOT '
+    'decide the value of the C cursor.')
 TECHNIQUE = ('Python ast + clang JSON AST; symbolic linear forms of the counter updates; ordering relative to the extension call; def-use of cached values')
 ASSUMPTIONS = ["the extension's return value is the library's cursor (R3); its value is not decided"]
 FILES = [RF, C_EXT, C_LIB]
